@@ -42,6 +42,12 @@ const HangBudget = 45 * time.Second
 
 // WorkerMain executes shard `shard` of `nshards` of check id and writes the result file.
 // only >= 0 restricts execution to (onlySub, onlyIdx).
+// UptoSub/UptoIdx (set through SetUpto) stop the shard after that index: used to re-execute the
+// history that precedes a failing case.
+var uptoSub, uptoIdx = -1, -1
+
+func SetUpto(sub, idx int) { uptoSub, uptoIdx = sub, idx }
+
 func WorkerMain(id, tier string, shard, nshards int, out string, traceFile string, skips []string, onlySub, onlyIdx int, deadline time.Time) int {
 	c := Get(id)
 	if c == nil {
@@ -50,6 +56,7 @@ func WorkerMain(id, tier string, shard, nshards int, out string, traceFile strin
 	}
 	subs := c.Subs(tier)
 	r := NewRec(tier)
+	r.Shard = shard
 	skip := map[skipKey]bool{}
 	for _, s := range skips {
 		var a, b int
@@ -128,6 +135,11 @@ func WorkerMain(id, tier string, shard, nshards int, out string, traceFile strin
 				r.Fail("escaped-"+pi.Key()+"|"+s.Name, W{"panic": pi.Raw, "stack": Short(pi.Stack, 3000)})
 			}
 			st.Done++
+			if uptoSub == si && uptoIdx == i {
+				mu.Lock()
+				writeOut("")
+				return 0
+			}
 		}
 	}
 	mu.Lock()
@@ -466,13 +478,43 @@ func CoordinatorMain(o *Opts) int {
 				ok = ok && b
 			}
 		}
+		history := false
+		if !ok && !strings.HasPrefix(f.Key, "hang|") && !strings.HasPrefix(f.Key, "fatal|") {
+			// the case may depend on the cases executed before it in its shard (state kept by the code under
+			// test between calls): re-execute that history, 5x in fresh processes; the order inside a shard is fixed
+			var cw sync.WaitGroup
+			oks := make([]bool, 5)
+			for rep := 0; rep < 5; rep++ {
+				cw.Add(1)
+				go func(rep int) {
+					defer cw.Done()
+					out := filepath.Join(scratch, fmt.Sprintf("confirm-h-%d-%d.json", n, rep))
+					code, _ := runWorker(o, f.Shard, o.NShards, out, fmt.Sprintf("--upto=%d:%d", f.SubIdx, f.Index))
+					wo := readOut(out)
+					if code == 0 && wo != nil {
+						for _, g := range wo.Findings {
+							if g.Key == f.Key {
+								oks[rep] = true
+							}
+						}
+					}
+				}(rep)
+			}
+			cw.Wait()
+			ok = true
+			for _, b := range oks {
+				ok = ok && b
+			}
+			history = ok
+		}
 		if !ok {
 			unreproducible = append(unreproducible, f.Key)
 			continue
 		}
 		os.MkdirAll(replayDir, 0o755)
 		rp := filepath.Join(replayDir, keyHash(f.Key)+".json")
-		b, _ := json.MarshalIndent(map[string]any{"property": o.ID, "tier": o.Tier, "sub": f.Sub, "sub_idx": f.SubIdx, "index": f.Index, "key": f.Key, "cases": f.Count, "witness": f.Witness}, "", " ")
+		b, _ := json.MarshalIndent(map[string]any{"property": o.ID, "tier": o.Tier, "sub": f.Sub, "sub_idx": f.SubIdx, "index": f.Index, "key": f.Key, "cases": f.Count, "witness": f.Witness,
+			"history_dependent": history, "shard": f.Shard, "nshards": o.NShards, "note": map[bool]string{true: "fails only after the cases that precede it in shard " + strconv.Itoa(f.Shard) + " of " + strconv.Itoa(o.NShards) + " (state carried between calls); replay re-executes that history", false: ""}[history]}, "", " ")
 		os.WriteFile(rp, b, 0o644)
 		violations++
 		violLines = append(violLines, fmt.Sprintf("VIOLATION property=%s replay=%s", o.ID, rp))
@@ -567,6 +609,9 @@ func ReplayMain(o *Opts) int {
 		SubIdx   int    `json:"sub_idx"`
 		Index    int    `json:"index"`
 		Key      string `json:"key"`
+		History  bool   `json:"history_dependent"`
+		Shard    int    `json:"shard"`
+		NShards  int    `json:"nshards"`
 	}
 	if err := json.Unmarshal(b, &rp); err != nil {
 		fmt.Fprintln(os.Stderr, err)
@@ -576,7 +621,13 @@ func ReplayMain(o *Opts) int {
 	scratch, _ := os.MkdirTemp("", "vreplay-")
 	defer os.RemoveAll(scratch)
 	out := filepath.Join(scratch, "out.json")
-	code, stderr := runWorker(o, 0, 1, out, fmt.Sprintf("--only=%d:%d", rp.SubIdx, rp.Index))
+	var code int
+	var stderr string
+	if rp.History && rp.NShards > 0 {
+		code, stderr = runWorker(o, rp.Shard, rp.NShards, out, fmt.Sprintf("--upto=%d:%d", rp.SubIdx, rp.Index))
+	} else {
+		code, stderr = runWorker(o, 0, 1, out, fmt.Sprintf("--only=%d:%d", rp.SubIdx, rp.Index))
+	}
 	wo := readOut(out)
 	if wo == nil {
 		fmt.Printf("replay: worker exit=%d\n%s\n", code, Short(stderr, 3000))
